@@ -62,6 +62,7 @@ func (r *BatchedPrivateTokenRequest) Marshal() []byte {
 }
 
 func (r *BatchedPrivateTokenRequest) Unmarshal(data []byte) bool {
+	r.raw = nil // forget the cached encoding of whatever the object held before
 	s := cryptobyte.String(data)
 
 	var tokenType uint16
